@@ -104,8 +104,11 @@ check("C14", "other",
       "0 → unlimited — for documents of <= 2/3 test cases and all durations; a runner timeout surfaces as Err(Timeout(Total|Index(i))) "
       "with the right kind and the timed-out output; no Timeout error otherwise. SubprocessRunner::run against a recording stub of the "
       "subprocess crate: the limit handed to the process is exactly the test case's timeout (zero is a limit), none without one; a timed-out "
-      "read is reported as Timeout; standard input = the expression; stderr merged iff combined. The subprocess crate's own enforcement of "
-      "the limit and the Cram executor's total timeout are not claimed (the CLI's reporting of later tests as skipped is C20's).",
+      "read is reported as Timeout; standard input = the expression; stderr merged iff combined; every variable of the test case (empty values "
+      "too) reaches the process; both streams come back through render_output. Single-script (Cram) executor: the script's process gets exactly the "
+      "document's total_timeout (absent → 900 s, 0 → none); a script stopped by it surfaces as Err(Timeout(Total)), a finishing one never (1..2/3 test cases; "
+      "replayed on real sleeps). The subprocess crate's own enforcement of "
+      "the limit is not claimed (the CLI's reporting of later tests as skipped is C20's).",
       E2_NOTE + " Environment stubs (clock, runner, temp dir, tracing) as listed in the evidence.", E2_TECH, "E2", "DESIGN.md §3 C14")
 check("C15", "other",
       "Partial (executor level): whole-function symbolic execution of StatefulExecutor::execute_all: it returns Err(Skipped(i)) "
@@ -131,6 +134,8 @@ check("C13", "other",
       "exactly its bytes and exit code (payloads with/without final newline, look-alike divider lines with a foreign salt stay output). "
       "compile_script of the single-script (Cram) executor puts every expression verbatim on its own line, in order, and its divider echo is a "
       "command of its own — no backslash continuation into it (1–2 symbolic expressions, replayed through the real executor and bash). "
+      "render_output applies exactly the documented transformations (CR LF unless keep_crlf, ANSI stripping iff set), and SubprocessRunner::run passes "
+      "both the output and the error output of the process through it (recording stub of the subprocess crate; a real printf through the runner). "
       "Pipes, merge order of stdout/stderr, megabyte payloads and real exit codes of processes are not claimed.",
       E2_NOTE, E2_TECH, "E2", "DESIGN.md §3 C13")
 
@@ -140,7 +145,8 @@ check("C08", "other",
       "` (K Q)` group with documented kind and/or quantifier is recognised exactly, the expression is verbatim, quantifier flags are "
       "right, failure only for regex/escaped kinds; every other line — including a final `()` — is an equal expectation for the whole "
       "line. Lines u ++ sep ++ (K Q) with symbolic u (<= 2/3 chars) over 13 kind texts × 6 quantifier texts × 3 separators, and all "
-      "free lines <= 5/6 chars over a 7-symbol alphabet. The canonical-rendering round trip is not covered.",
+      "free lines <= 5/6 chars over a 7-symbol alphabet. Canonical rendering (equal / no-eol / escaped) parses back to the same expectation; "
+      "glob / regex rendering is outside.",
       E2_NOTE + " Additionally trusts lib/miniregex.py (capture semantics; validated natively on concrete lines each run).",
       E2_TECH, "E2", "DESIGN.md §3 C08")
 
@@ -151,7 +157,9 @@ check("C09", "other",
       "no exit code and one quantifier-free expectation that matches that line — for lines u ++ S (|u| <= 2/3 symbolic over 8 symbols, "
       "S from 12 syntax-lookalike suffixes), with/without final newline, both escapers, Markdown and Cram line-parser modes; plus "
       "max_backtick_size >= every line-leading backtick run. Seven collision classes are genuine defects recorded in known_findings.json. "
-      "Multi-line outputs, document-level rendering and non-zero exit codes are outside.",
+      "A test case that failed on its exit code (recorded code symbolic in 0..255, written code absent or any other; 0..1/2 lines on stdout and on stderr; every "
+      "output_stream setting) is rewritten to a block that parses back to the same command, the recorded exit code and one matching expectation per line of "
+      "the stream that validate compares; replayed through the real update generators on a real document. Longer outputs and document-level rendering are outside.",
       E2_NOTE + " Additionally trusts lib/miniregex.py.", E2_TECH, "E2", "DESIGN.md §3 C09")
 
 check("C17", "other",
@@ -160,7 +168,10 @@ check("C17", "other",
       "like that or a plain scalar that a flow mapping cannot mistake (paths <= 3/4 chars over {a / . , } \"}); witnesses are replayed "
       "through the real serde_yaml round trip. timeout and wait (all durations below 400 days, nanosecond resolution) are written as "
       "humantime's rendering of exactly the configured duration (humantime::format_duration = injective black box; what scrut passes to it "
-      "is decided). The other keys, document front-matter, humantime and serde_yaml themselves are not claimed.",
+      "is decided). The scalar keys (output_stream, keep_crlf, detached, strip_ansi_escaping, skip_document_code over 18 codes) are written iff set, "
+      "with the spelling the reader accepts; is_empty ⇔ nothing is set (generator round trip); the derived Serialize for TestCaseConfig, run against a "
+      "recording serializer with a fully symbolic configuration, writes every key that is set with its value and announces the right count "
+      "(witnesses through the real serde_yaml round trip). Document front-matter rendering, humantime and serde_yaml themselves are not claimed.",
       E2_NOTE, E2_TECH, "E2", "DESIGN.md §3 C17")
 
 check("C07", "other",
@@ -172,10 +183,12 @@ check("C07", "other",
       "never crash the parser. Other non-ASCII text and long documents are outside.",
       E2_NOTE + " Additionally trusts lib/miniregex.py.", E2_TECH, "E2", "DESIGN.md §3 C07")
 check("C10", "other",
-      "Partial: documents whose tests all pass. On the MIR of parse ∘ generate_update for every template Markdown document of <= 4/5 lines (and "
-      "<= 6/7 lines over a reduced template set): update does not crash and returns the document unchanged line for line — prose, foreign "
-      "blocks, comments, commands, expectation lines, text after the last test; an unterminated scrut block only gains its closing fence; "
-      "idempotence on these documents follows. Rewriting of failing tests, front-matter, inline configuration and CRLF documents are not claimed.",
+      "Partial. On the MIR of parse ∘ generate_update for every template Markdown document of <= 4/5 lines (and <= 6/7 lines over reduced template "
+      "sets: long fences with foreign-fence lines and indented backtick runs, front-matter, inline configuration): with all tests passing update does "
+      "not crash and returns the document unchanged line for line — front-matter, prose, foreign blocks, comments, commands, expectation lines, text "
+      "after the last test; an unterminated scrut block only gains its closing fence (idempotence follows). With any subset of tests failing only the "
+      "failing blocks change (fence language, comments, command, exit code kept, new output written) and the updated document parses with the real "
+      "parser to the same commands. Multi-line new output, CRLF documents and Cram documents are not claimed.",
       E2_NOTE + " Additionally trusts lib/miniregex.py.", E2_TECH, "E2", "DESIGN.md §3 C10")
 
 check("C20", "other",
@@ -187,9 +200,11 @@ check("C20", "other",
       "skipped); a skipped document never fails the run; after a time-out the rest is skipped; run returns Err(ValidationFailed) iff "
       "something failed or timed out, another error iff a document could not be executed; main maps these to 50 / 1 / 0. Executor calls "
       "of <= 3/4 test cases (5 with a reduced alphabet), every result shape; 2 documents with representative results. Witnesses are replayed "
-      "through the real binary on real documents. FileParser::find_and_parse yields one parsed document per explicitly named file in the order "
-      "given (every ordered selection of 1..3 of 4 paths; file system stubbed). That the executors run each test case once and in order, "
-      "directory listing order, parse errors and Cram documents are not claimed.",
+      "through the real binary on real documents. The real FileParser::find_and_parse over a file-system stub yields one parsed document per named "
+      "file and per matching file below a named directory (depth first), in the order given (every ordered selection of 1..3 of 4 paths; a "
+      "two-level directory tree named in 4 ways), and fails when one of those documents cannot be read (shallow, deep, top level; exit status 1 "
+      "end to end). That the executors run each test case once and in order (C14 / C15), the file system's own listing order and parse errors are "
+      "not claimed.",
       E2_NOTE + " Stubs as listed in the evidence; the executor-result shapes are validated every run by real `scrut test` runs on sampled scripts.",
       "bounded symbolic execution of the MIR of commands::test::Args::run and main (bin crate) with a scripted executor and free validation verdicts; "
       "z3 decides each path's postcondition; witnesses replayed end to end through the real scrut binary", "E2", "DESIGN.md §3 C20")
@@ -201,7 +216,9 @@ check("C18", "other",
       "(or is the given --work-directory); every test case carries TESTDIR, TESTFILE, TESTSHELL, TMPDIR and the documented locale / terminal "
       "variables with the right values; when run returns (success, validation failure, time-out, skip, execution error) nothing scrut "
       "created is left unless --keep-temporary-directories, a given --work-directory stays and only the temporary directory inside it is "
-      "gone. SCRUT_TEST=<path>:<line> per test case is decided on the MIR of StatefulExecutor::execute_all. 1 document with 1..2/3 test cases "
+      "gone. SCRUT_TEST=<path>:<line> per test case is decided on the MIR of StatefulExecutor::execute_all; that every variable of the test case — "
+      "the documented empty ones (CDPATH, GREP_OPTIONS) included — reaches the process is decided on SubprocessRunner::run against a recording stub and "
+      "probed on a real process under a polluted parent environment. 1 document with 1..2/3 test cases "
       "(every executor result shape), 2 and 3 documents (also identical file names); the three admissible flag combinations. Witnesses and a "
       "sample of configurations run through the real binary with probe commands and a private $TMPDIR. Parse errors before the loop, panics / "
       "signals, several scrut processes at once, the update / create commands and the real file system are not claimed.",
